@@ -645,6 +645,7 @@ class Interp:
             return self.binop(e.op, self.ev(e.left, env), self.ev(e.right, env), e)
         if isinstance(e, ast.Compare):
             l = self.ev(e.left, env)
+            l0 = l
             result = True
             texts = [show(l)]
             unknown = False
@@ -662,6 +663,8 @@ class Interp:
                 out = texts[0]
                 for op, t_ in zip(e.ops, texts[1:]):
                     out += ' %s %s' % (syms[type(op)], t_)
+                if len(e.ops) == 1:
+                    return Sym('(%s)' % out, struct=('compare', syms[type(e.ops[0])], l0, r))
                 return Sym('(%s)' % out)
             return result
         if isinstance(e, ast.IfExp):
@@ -1068,7 +1071,7 @@ class _Method:
 def _b_len(it, args, kw):
     v = args[0]
     if isinstance(v, Sym):
-        return v.length if v.length is not None else Sym('len(%s)' % v.text)
+        return v.length if v.length is not None else Sym('len(%s)' % v.text, struct=('call', 'len', (v,), {}))
     if isinstance(v, (tuple, list, dict, str, range)):
         return len(v)
     raise Raised('TypeError')
